@@ -75,7 +75,8 @@ def main():
     for t in ts:
         t.join()
     bad = [d for d, (p, r) in results.items() if r != "caught" and not d.startswith("not-kept")]
-    print("%d seeded changes, %d detected, %d not" % (len(results), len(results) - len(bad), len(bad)))
+    kept = [d for d in results if not d.startswith("not-kept")]
+    print("%d kept seeded changes, %d detected, %d not (%d set aside)" % (len(kept), len(kept) - len(bad), len(bad), len(results) - len(kept)))
     for d in bad:
         print("  NOT DETECTED:", d, results[d])
     sys.exit(0 if not bad else 1)
